@@ -273,8 +273,6 @@ class BufferMon(Monitor):
             arr = self.arrived.setdefault(b.name, {})
             old = self.pre.get(b.name, [])
             arrivals = [t[2] for t in w.hub.tlog if t[0] == 'received' and t[1] == b.name]
-            for pid in arrivals:
-                arr[pid] = now
             departed = []
             if actor is b:
                 departed = [t[4] for t in gave_entries(w, True) if t[2] == -1]
@@ -288,11 +286,16 @@ class BufferMon(Monitor):
                 raise Violation('fifo', f'{b.name}: parts {seq[:k]} left the store but hand-overs made by the '
                                         f'buffer were {departed}')
             for pid in departed:
-                t_in = arr.pop(pid)
+                # (a part may leave and come back within one event -- a loop through zero-time devices: the stay that
+                # ends is the one that began earlier)
+                t_in = arr.pop(pid) if pid in arr else now
                 if now < t_in + b.minimum_delay - np.spacing(float(now)):
                     raise Violation('min_delay', f'{b.name}: part {pid} arrived {t_in} left {now}, '
                                                  f'minimum delay {b.minimum_delay}')
                 w.facts.append('buffer_departure')
+            for pid in arrivals:
+                if pid in cur:
+                    arr[pid] = now
             if len(cur) >= 2:
                 w.facts.append('buffer_holds_2+')
         self._static(w)
